@@ -118,6 +118,12 @@ func seqPart(c *vf.Ctx) {
 		l.codecCases(c.Rand(fmt.Sprintf("codec/%d", i)), c.Pick(12, 120))
 		l.merge(c)
 	})
+	// serix faults at one entry: unencodable / undecodable element at every position, truncated input
+	vf.Parallel(8, workers, func(i int) {
+		l := newLocal()
+		l.codecFaultCases(c.Rand(fmt.Sprintf("codecfault/%d", i)), c.Pick(2, 20))
+		l.merge(c)
+	})
 	// consumers that mutate the structure they iterate
 	{
 		l := newLocal()
@@ -515,6 +521,15 @@ func replay(c *vf.Ctx) {
 			r.What = what
 			c.Violation(fp, what, r)
 		}
+	case "codecfault":
+		var r faultCase
+		_ = json.Unmarshal(raw, &r)
+		if fp, what, _, premise := runFaultCase(r); fp != "" {
+			r.What = what
+			c.Violation(fp, what, r)
+		} else if !premise {
+			c.Inconclusive("codecfault replay: the element that should be faulty is not (or a healthy one is) under serix alone")
+		}
 	case "itermut":
 		var r iterCase
 		_ = json.Unmarshal(raw, &r)
@@ -628,6 +643,14 @@ func run(c *vf.Ctx) {
 	c.Require("arith:calls", 10000)
 	c.Require("codec:two-or-more-entries", 5000)
 	c.Require("codec:non-empty-destination", 3000)
+	for mode, shapes := range faultShapes {
+		for _, sh := range shapes {
+			c.Require("codecfault:"+mode+":"+sh, 100)
+		}
+	}
+	c.Require("codecfault:encode-errors-returned", 3000)
+	c.Require("codecfault:decode-errors-returned", 1000)
+	c.Require("codecfault:truncated-prefixes-rejected", 20000)
 	c.Require("itermut:consumer-delete-next", 500)
 	c.Require("itermut:consumer-clear", 500)
 	c.Require("combinations_decided", len(combos()))
